@@ -65,12 +65,13 @@ pub fn scenario_cell(s: &Scenario) -> CellDesc {
                 hi: [(cx + 0.05) as f32, (cy + 0.05) as f32, 2.4],
                 subdiv: 1,
                 pose: Iso::identity(),
+                shape: 0,
             }]
         }
         2 => {
             // a ring of four plates around the tool of the start posture (tool frame), 6 mm clearance
             let f = cell.link_poses(&START)[5];
-            let plate = |lo: [f32; 3], hi: [f32; 3]| EnvObj { lo, hi, subdiv: 1, pose: f };
+            let plate = |lo: [f32; 3], hi: [f32; 3]| EnvObj { lo, hi, subdiv: 1, pose: f, shape: 0 };
             vec![
                 plate([0.016, -0.05, 0.05], [0.03, 0.05, 0.2]),
                 plate([-0.03, -0.05, 0.05], [-0.016, 0.05, 0.2]),
